@@ -8,6 +8,7 @@ mod c08;
 mod c05;
 mod c09;
 mod c01;
+mod c03;
 
 fn main() {
     let args: Vec<String> = std::env::args().collect();
@@ -63,6 +64,7 @@ fn generate(prop: &str, seed: u64, thorough: bool) -> Vec<serde_json::Value> {
         "C09" => c09::generate(seed, thorough),
         "C11" => c05::generate_c11(seed, thorough),
         "C01" | "C02" | "C17" => c01::generate(prop, seed, thorough),
+        "C03" | "C04" | "C15" => c03::generate(prop, seed, thorough),
         "C12" => c08::generate_c12(seed, thorough),
         other => { eprintln!("unknown property {}", other); std::process::exit(2); }
     }
@@ -76,6 +78,7 @@ fn run_case(prop: &str, id: usize, input: &serde_json::Value) {
         "C05" | "C11" => c05::run_case(id, input),
         "C09" => c09::run_case(id, input),
         "C01" | "C02" | "C17" => c01::run_case(id, input),
+        "C03" | "C04" | "C15" => c03::run_case(id, input),
         other => { eprintln!("unknown property {}", other); std::process::exit(2); }
     }
 }
